@@ -542,6 +542,7 @@ class Calls:
         """Summary of a function that is not part of the program proper (an analysis view with helpers inlined)."""
         assert self._summ is not None
         s = Summary(f)
+        self._summ[id(f.node)] = s   # (a recursive local function reaches itself: the partial summary ends the recursion)
         for n in body_walk(f):
             if isinstance(n, (ast.Await, ast.Yield, ast.YieldFrom, ast.AsyncFor, ast.AsyncWith)):
                 s.own_ip = True
